@@ -108,7 +108,7 @@ package mqtt
 //@   assigns any BaseClient.sig; any BaseClient.connClosed; any BaseClient.idLast; any BaseClient.connState; any BaseClient.err
 //@   ensures[C17] handler_first: evCount("(*BaseClient).Handle") == 1 && evCount("(*BaseClient).Connect") == 1 &&
 //@        evArg[*BaseClient]("(*BaseClient).Handle", 0, 0) == evArg[*BaseClient]("(*BaseClient).Connect", 0, 0) &&
-//@        evArg[Handler]("(*BaseClient).Handle", 0, 1) == guardVal(&c.handler) &&
+//@        evArg[Handler]("(*BaseClient).Handle", 0, 1) == guardVal(&c.handler) && evArg[*BaseClient]("(*BaseClient).Connect", 0, 0) == guardVal(&c.cli) &&
 //@        evIndex("(*BaseClient).Handle", 0) < evIndex("(*BaseClient).Connect", 0)
 //@   ensures[C09] same_connect: evArg[string]("(*BaseClient).Connect", 0, 2) == clientID && sameSlice(evArg[[]ConnectOption]("(*BaseClient).Connect", 0, 3), opts) &&
 //@        evArg[context.Context]("(*BaseClient).Connect", 0, 1) == ctx
